@@ -314,6 +314,65 @@ def job_setters(j):
     return n, res
 
 
+def boundary_cases(family):
+    yield ('set_grid_export_limit', (-1,), 'silent')
+    if family in ('ET', 'ES'):
+        for d in (-1, 101):
+            yield ('set_ongrid_battery_dod', (d,), 'silent')
+        for mode in (OM.ECO_CHARGE, OM.ECO_DISCHARGE):
+            for bad in (-1, 101, 1000):
+                yield ('set_operation_mode', (mode, bad, 50), 'ValueError')
+                yield ('set_operation_mode', (mode, 50, bad), 'ValueError')
+    yield ('write_setting', ('no_such_setting', 1), 'ValueError')
+
+
+def legal_priors(family):
+    out = [('set_grid_export_limit', (100,)), ('write_setting', ('grid_export_limit', 7))]
+    if family != 'DT':
+        out += [('set_operation_mode', (m, 50, 50)) for m in OM] + [('set_ongrid_battery_dod', (40,))]
+    return out
+
+
+def job_setters_after(cfg):
+    """Guards precede the first transmission also when the object has a history: every legal setter call (each operation
+    mode, export limit, DoD, a plain write) followed by each boundary out-of-range call - in both orders of the
+    invalid calls - on one object."""
+    out = {}
+    n = 0
+    for pname, pargs in legal_priors(cfg['family']):
+        for rev in (False, True):
+            r = prepare(cfg)
+            r.call(r.inv.read_device_info)
+            pr = r.call(getattr(r.inv, pname), *pargs)
+            cases = list(boundary_cases(cfg['family']))
+            for (name, args, expect) in (cases[::-1] if rev else cases):
+                l0 = len(r.dev.log)
+                res = r.call(getattr(r.inv, name), *args)
+                n += 1
+                w = [q for q in r.dev.log[l0:] if q.get('fn') not in (3, 'read')]
+                pn = pname + (':' + pargs[0].name if pname == 'set_operation_mode' else '')
+                if w:
+                    key = f"no-write-for-invalid-argument/{cfg['family']}/{name}/after:{pn}"
+                    out.setdefault(key, []).append(dict(
+                        key=key, clause='out-of-range setter arguments transmit no write',
+                        replay=dict(part='setter-after', cfg=cfg, prior=[pname, [str(a) for a in pargs]], call=name,
+                                    args=[str(a) for a in args], rev=rev),
+                        detail=dict(history=[f'{pname}{pargs} -> {pr[0]}', f'{name}{args}'], write_seen=str(w[0])[:100])))
+                if expect == 'ValueError' and not (res[0] == 'exc' and res[1] == 'ValueError') and \
+                        not (cfg['family'] == 'DT' and name == 'set_operation_mode'):
+                    key = f"raises-ValueError/{cfg['family']}/{name}/after:{pn}"
+                    out.setdefault(key, []).append(dict(
+                        key=key, clause='documented ValueError',
+                        replay=dict(part='setter-after', cfg=cfg, prior=[pname, [str(a) for a in pargs]], call=name,
+                                    args=[str(a) for a in args], rev=rev),
+                        detail=dict(history=[f'{pname}{pargs}', f'{name}{args}'], outcome=str(res)[:100])))
+    res = []
+    for key, lst in out.items():
+        lst[0]['n'] = len(lst)
+        res.append(lst[0])
+    return n, res
+
+
 def vacuity(cfg):
     """in-range arguments do produce writes (otherwise part (b) would be vacuous)."""
     r = prepare(cfg)
@@ -384,6 +443,10 @@ def run(tier, seed, rep):
     for n, res in pmap(job_setters, [(c, p, nparts) for c in reps.values() for p in range(nparts)]):
         ns += n
         rep.add_many(res)
+    nsa = 0
+    for n, res in pmap(job_setters_after, list(reps.values())):
+        nsa += n
+        rep.add_many(res)
     for c in reps.values():
         miss = vacuity(c)
         for name in miss:
@@ -391,7 +454,7 @@ def run(tier, seed, rep):
                     dict(part='vacuity', cfg=c), dict(call=name))
     cov = dict(api_session_histories=_api['histories'], api_session_states=_api['states'],
                states=states, transitions=max(edges, 1), executions=total + ne + ns + ncf, traces_validated_against_impl=total + ne + ns + ncf,
-               connect_fault_runs=ncf, unlisted_id_write_attempts=nrem,
+               connect_fault_runs=ncf, unlisted_id_write_attempts=nrem, invalid_calls_after_legal_setters=nsa,
                read_sequences=total, entry_point_runs=ne, setter_calls=ns, distinct_read_outcomes=ocs, exhaustive=True,
                bound=f'BFS over read-only call sequences of depth <= {depth} ({len(READ_OPS)} calls) with state de-duplication x '
                      f'{len(cfgs)} configurations (families, capability fallbacks, eco-mode register contents); connect() and '
@@ -424,6 +487,9 @@ def replay(r):
             outs.append(str(do_read(rg, op))[:80])
             w += [q for q in rg.dev.log[l0:] if q.get('fn') not in (3, 'read')]
         return dict(outcomes=outs, violations=[str(x) for x in w])
+    if r['part'] == 'setter-after':
+        n, res = job_setters_after(cfg)
+        return dict(calls=n, violations=[(v['key'], str(v['detail'])[:200]) for v in res])
     if r['part'] == 'removed':
         n, res = job_removed(cfg)
         return dict(attempts=n, violations=[(v['key'], v['detail']['setting']) for v in res])
